@@ -35,7 +35,7 @@ ASSUMPTIONS = [
     "portfolio-relative cells of open_positions (weights, row-numbered formulas) are excluded from the asset-subset relation",
 ]
 PROBES = ["reference_failed", "history_crashed_run", "history_io_faulted_run", "history_input_faulted_run", "history_left_torn_tmp", "stale_same_name_report_replaced",
-          "order_permutation_changed_bytes", "subset_two_assets_share_row_numbers", "subset_with_window", "host_jump_fired", "multi_asset_case", "crash_point_sweep"]
+          "order_permutation_changed_bytes", "subset_two_assets_share_row_numbers", "subset_with_window", "host_jump_fired", "multi_asset_case", "crash_point_sweep", "history_reports_edited_by_user"]
 
 
 def make_case(seed, facts, index=0):
@@ -109,6 +109,8 @@ def _make_relation(rng, kind, base, facts):
                 for key in ("outdir", "prefix", "path_style", "files_in"):
                     o[key] = base["opts"].get(key)
                 h["opts"] = o
+            if h["mode"] == "clean" and rng.random() < 0.4:
+                h["edit_reports"] = rng.randint(0, 2**31)  # the user opens the reports of that run and types numbers into cells
             if h["mode"] == "crash":
                 h["crash_at"] = rng.randint(1, 120)
             elif h["mode"] == "io_fault":
@@ -125,6 +127,18 @@ def _make_relation(rng, kind, base, facts):
             if rng.random() < 0.4:
                 part = {"mode": "crash", "world": "same", "opts": dict(base["opts"]), "crash_at": rng.randint(1, 25)}
             runs = [full, part]
+        elif rng.random() < 0.2:
+            # "reports of another flavour, touched by the user": the same input run with another method / prefix / window, its reports then
+            # edited in a spreadsheet program, then the run under test into the same directory
+            o = dict(base["opts"])
+            fm = [m for m in facts[o["country"]]["methods"] if m != (o.get("method") or "fifo")]
+            if fm and not base["world"].get("methods"):
+                o["method"] = rng.choice(fm)
+            elif o.get("prefix"):
+                o["prefix"] = o["prefix"] + "old_"
+            else:
+                o["from"], o["to"] = gen.gen_window(rng, base["world"], o["country"])
+            runs = [{"mode": "clean", "world": "same", "opts": o, "edit_reports": rng.randint(0, 2**31)}]
         rel["runs"] = runs
         rel["residue"] = gen.gen_prestate(rng, base["opts"]) if rng.random() < 0.6 else []
         rel["host"] = gen.gen_host(rng, {"clock": True, "env": False, "hash": rng.random() < 0.5}) if rng.random() < 0.5 else dict(gen.BASE_HOST)
@@ -322,6 +336,9 @@ def exec_case(case, facts, src=None):
                         m = "io_faulted"
                     if m == "input_fault" and hr["rc"] != 0:
                         stats["probe:history_input_faulted_run"] = 1
+                    if h.get("edit_reports") is not None and core.edit_reports(hr["layout"]["output_dir"], h["edit_reports"], exclude=w1.put_paths):
+                        stats["probe:history_reports_edited_by_user"] = 1
+                        m += "+edited"
                     if any(p.endswith(".tmp") for p in core.snapshot_diff(hr)):
                         stats["probe:history_left_torn_tmp"] = 1
                     modes.append("%s:%s" % (m, "same" if h["world"] == "same" else ("sibling" if [s["name"] for s in hw["sheets"]] and set(s["name"] for s in hw["sheets"]) <= set(assets) else "other")))
@@ -415,6 +432,8 @@ def reduce_candidates(case):
         if rel.get("residue"):
             yield dict(c, relations=[dict(rel, residue=[])])
         for i, h in enumerate(rel["runs"]):
+            if h.get("edit_reports") is not None:
+                yield dict(c, relations=[dict(rel, runs=rel["runs"][:i] + [dict(h, edit_reports=None)] + rel["runs"][i + 1:])])
             if h["mode"] != "clean":
                 h2 = dict(h, mode="clean")
                 yield dict(c, relations=[dict(rel, runs=rel["runs"][:i] + [h2] + rel["runs"][i + 1:])])
